@@ -40,14 +40,16 @@ LEVEL_TEXT = ('parsimony_score (both entry points) is hooked (history journal pe
               'the structure the tree has at that moment, for all seven built-in discrete matrix types, generated alphabets with nested / '
               'symbol-less ambiguous and polymorphic states, matrices parsed from NEXUS with {..} and (..) cells, integer / dyadic / big / '
               'Fraction weights, both gap treatments incl. the default, every way of passing the options, namespaces larger than the tree, '
-              'n = 1 and 0 columns, inside histories of scoring calls, up passes, failing calls, matrix edits, in-place re-rooting / pruning and copies.')
+              'n = 1 and 0 columns, inside histories of scoring calls, up passes, failing calls, matrix edits, in-place re-rooting / pruning and copies, '
+              'and alphabets that gain fundamental states after matrices over them were scored.')
 LEVEL_NOTE = 'Trusted: the Sankoff oracle and the symbol tables written in the module; bifurcating trees only.'
 LEVEL = "exploration"
 TECHNIQUE = ("runtime monitoring: generated operation histories on one tree object; hook on parsimony_score with history journal per tree object; "
              "independent Sankoff/brute-force oracle on the structure read back from the raw child lists")
 RULE = ("(bifurcating tree shape incl. a single leaf x rooting flag True/False/None x namespace with extra taxa) x (matrix type: 7 built-in, generated "
         "alphabet, NEXUS-parsed; matrix over the full symbol set incl. ambiguity codes, multistates, gaps, missing; 0..n columns) x weight vector "
-        "class x gaps_as_missing incl. default x way of passing options x entry point x history of earlier operations on the same tree object; "
+        "class x gaps_as_missing incl. default x way of passing options x entry point x history of earlier operations on the same tree object "
+        "| Standard alphabet of 1-3 symbols, scored, then grown by 1-4 fundamental states in 1-2 rounds, a new matrix with ? and - scored after each; "
         "non-trivial = true score > 0; distinct = (canonical tree, matrix content, options, history)")
 REACH = ["parsimony:parsimony_score", "parsimony:fitch_down_pass", "charmatrixmodel:DiscreteCharacterMatrix.taxon_state_sets_map",
          "parsimony:fitch_up_pass", "parsimony:_retrieve_state_sets_from_attr", "parsimony:_NodeStateSetMap.__getitem__",
